@@ -832,7 +832,7 @@ func init() {
 }
 
 func genTextCase(t *rapid.T) TextCase {
-	c := TextCase{Kind: rapid.SampledFrom([]int{0, 1, 2, 3, 4, 5, 5, 5}).Draw(t, "kind")}
+	c := TextCase{Kind: rapid.SampledFrom([]int{0, 1, 2, 3, 4, 5, 5, 5, 6, 6}).Draw(t, "kind")}
 	switch c.Kind {
 	case 5:
 		var m proto.Message = &pb.ServerConfig{}
@@ -845,6 +845,26 @@ func genTextCase(t *rapid.T) TextCase {
 			b = []byte("{}")
 		}
 		c.Text = string(b)
+		c.Cut, c.Insert, c.At = -1, "", 0
+		return c
+	case 6:
+		// well-formed JSON that asks for something the configuration does not
+		// have: a misspelled key (at the top or inside a profile / user / rule) or
+		// a misspelled enum name. It is malformed configuration text: it must be
+		// refused, not stored without the part nobody understood.
+		c.Text = rapid.SampledFrom([]string{
+			`{"socks5ListenLAN":true,"socks5authentication":[{"user":"u","password":"p"}]}`,
+			`{"activeProfile":"x","rpcport":1}`,
+			`{"profiles":[{"profileName":"x","user":{"name":"u","password":"p","allowPrivateIp":true},"servers":[{"ipAddress":"1.2.3.4","portBindings":[{"port":1,"protocol":"TCP"}]}]}]}`,
+			`{"profiles":[{"profileName":"x","user":{"name":"u","password":"p"},"servers":[{"ipAddress":"1.2.3.4","portBindings":[{"port":1,"protocol":"tcp"}]}]}]}`,
+			`{"profiles":[{"profileName":"x","user":{"name":"u","password":"p"},"servers":[{"ipAddress":"1.2.3.4","portBindings":[{"port":1,"protocol":"TCP"}]}],"handshakeMode":"NO_WAIT"}]}`,
+			`{"portBindings":[{"port":1,"protocol":"TCP"}],"users":[{"name":"u","password":"p","quota":[{"days":1,"megabytes":1}]}]}`,
+			`{"portBindings":[{"port":1,"protocol":"TCP"}],"users":[{"name":"u","password":"p"}],"egress":{"rules":[{"ipRange":["10.0.0.0/8"],"action":"REJECT"}]}}`,
+			`{"portBindings":[{"port":1,"protocol":"TCP"}],"users":[{"name":"u","password":"p"}],"dns":{"dualStack":"PREFER_IPV4"}}`,
+			`{"portBindings":[{"port":1,"protocol":"TCP"}],"users":[{"name":"u","password":"p"}],"advancedSettings":{"userHintMandatory":true}}`,
+			`{"loggingLevel":"VERBOSE"}`,
+			`{"trafficPattern":{"lowEntropy":{"mode":"LOW_ENTROPY_MODE_64"}}}`,
+		}).Draw(t, "unknown")
 		c.Cut, c.Insert, c.At = -1, "", 0
 		return c
 	case 0:
@@ -984,6 +1004,18 @@ func propText(c TextCase) (o pbt.Outcome) {
 		return err
 	})
 	try("ParseURLClientConfig", func() error { _, err := appctl.ParseURLClientConfig(s); return err })
+	if c.Kind == 6 {
+		cc, sc := &pb.ClientConfig{}, &pb.ServerConfig{}
+		errC, errS := common.UnmarshalJSON([]byte(s), cc), common.UnmarshalJSON([]byte(s), sc)
+		if errC == nil || errS == nil {
+			which := "client"
+			if errS == nil {
+				which = "server"
+			}
+			o.Failf("unknown-accepted", "configuration text with a key or enum name that does not exist was accepted as a %s configuration (the part nobody understood is silently dropped): %s", which, s)
+			return
+		}
+	}
 	try("UnmarshalJSON(ClientConfig)", func() error {
 		cc := &pb.ClientConfig{}
 		if err := common.UnmarshalJSON([]byte(s), cc); err != nil {
